@@ -30,8 +30,8 @@ AGT = lambda *names: [f'GridVerse.Agree.{n}' for n in names]  # noqa: E731
 PROPS = {}
 
 PROPS['C18'] = {
-    'targets': ['GridVerse.Props.C18'] + AGT('Orient', 'Actions', 'GridRot', 'Boundary'),
-    'theorem_files': [('GridVerse/Props/C18.lean', 'C18_')] + AG('Orient', 'Actions', 'GridRot', 'Boundary'),
+    'targets': ['GridVerse.Props.C18'] + AGT('Orient', 'Actions', 'GridRot', 'Boundary', 'Behaviour'),
+    'theorem_files': [('GridVerse/Props/C18.lean', 'C18_')] + AG('Orient', 'Actions', 'GridRot', 'Boundary', 'Behaviour'),
     'audit_prefix': 'C18_',
     'families': {
         'quick': [(CORE, 'fam_geometry', 4000, 16)],
@@ -45,8 +45,8 @@ DYN_QUICK = [(CORE, 'fam_trans_smallscope', 0, 16), (CORE, 'fam_trans_random', 6
 DYN_THOROUGH = [(CORE, 'fam_trans_smallscope', 0, 16), (CORE, 'fam_trans_random', 400000, 16), (CORE, 'fam_trans_history', 80000, 16)]
 
 PROPS['C08'] = {
-    'targets': ['GridVerse.Props.C08'],
-    'theorem_files': [('GridVerse/Props/C08.lean', 'C08_')] + AG('Actions', 'Orient', 'Objects'),
+    'targets': ['GridVerse.Props.C08'] + AGT('Behaviour'),
+    'theorem_files': [('GridVerse/Props/C08.lean', 'C08_')] + AG('Actions', 'Orient', 'Objects', 'Behaviour'),
     'audit_prefix': 'C08_',
     'families': {'quick': DYN_QUICK, 'thorough': DYN_THOROUGH},
     'trusted_base': ['the seven transition functions are modelled by hand (Model/Transition.lean) and tied by exhaustive small-scope + random correspondence with recorded draws'],
